@@ -43,11 +43,45 @@ use serde::{Deserialize, Serialize};
 /// [`ShortMessageType::ControlChange`]: enum.ShortMessageType.html#variant.ControlChange
 /// [`ControlChange14BitMessageScanner`]: struct.ControlChange14BitMessageScanner.html
 #[derive(Copy, Clone, Eq, PartialEq, Hash, Debug)]
-#[cfg_attr(feature = "serde", derive(Serialize, Deserialize))]
+#[cfg_attr(
+    feature = "serde",
+    derive(Serialize, Deserialize),
+    serde(try_from = "UncheckedControlChange14BitMessage")
+)]
 pub struct ControlChange14BitMessage {
     channel: Channel,
     msb_controller_number: ControllerNumber,
     value: U14,
+}
+
+/// Mirror of [`ControlChange14BitMessage`] which is used for validating deserialized data.
+#[cfg(feature = "serde")]
+#[derive(Deserialize)]
+#[serde(rename = "ControlChange14BitMessage")]
+struct UncheckedControlChange14BitMessage {
+    channel: Channel,
+    msb_controller_number: ControllerNumber,
+    value: U14,
+}
+
+#[cfg(feature = "serde")]
+impl core::convert::TryFrom<UncheckedControlChange14BitMessage> for ControlChange14BitMessage {
+    type Error = &'static str;
+
+    fn try_from(msg: UncheckedControlChange14BitMessage) -> Result<Self, Self::Error> {
+        if msg
+            .msb_controller_number
+            .corresponding_14_bit_lsb_controller_number()
+            .is_none()
+        {
+            return Err("MSB controller number of a 14-bit Control Change message must be <= 31");
+        }
+        Ok(ControlChange14BitMessage {
+            channel: msg.channel,
+            msb_controller_number: msg.msb_controller_number,
+            value: msg.value,
+        })
+    }
 }
 
 impl ControlChange14BitMessage {
